@@ -528,3 +528,107 @@ def interp(ctx, d):
 @CHECK.enum("grid", grid_cases)
 def grid(ctx, d):
     _check(ctx, d)
+
+
+# ------------------------------------------------------------------------------------------------
+# interpolated objects must BEHAVE like objects at the interpolated pose (footprint, corners, heading, distances, pair
+# scores): the frame is built from deep copies of already-used objects whose state is reassigned, so anything an object
+# memoises would be carried along (added after seeded changes cached footprint / heading on the object)
+# ------------------------------------------------------------------------------------------------
+
+
+@st.composite
+def _derived_cases(draw, tier="quick"):
+    n = draw(st.integers(1, 4))
+    objs = []
+    for i in range(n):
+        objs.append(
+            {
+                "p0": [draw(GEN.fl(-30, 30)) + 0.37, draw(GEN.fl(-30, 30)) - 0.21, draw(GEN.fl(-1, 1))],
+                "dp": [draw(GEN.fl(-4, 4)), draw(GEN.fl(-4, 4)), draw(GEN.fl(-0.2, 0.2))],
+                "yaw0": draw(GEN.yaws()),
+                "dyaw": draw(st.sampled_from([0.0, 0.3, -0.8, 2.0])),
+                "size": draw(GEN.sizes()),
+                "uuid": f"g{i}",
+            }
+        )
+    return {
+        "frame": draw(st.sampled_from(["base_link", "map"])),
+        "ego0": draw(GEN.ego_poses(big=False)),
+        "ego1": draw(GEN.ego_poses(big=False)),
+        "objs": objs,
+        "alpha_num": draw(st.integers(1, 9)),
+    }
+
+
+@CHECK.given("interpolated_objects_behave_as_fresh", lambda tier: _derived_cases(tier), quick=150, thorough=6000)
+def interpolated_objects_behave_as_fresh(ctx, d):
+    from perception_eval.common.dataset import get_interpolated_now_frame
+    from perception_eval.common.object import DynamicObject
+    from perception_eval.common.schema import FrameID
+    from perception_eval.common.shape import Shape, ShapeType
+    from perception_eval.evaluation.result.object_result import DynamicObjectWithPerceptionResult
+
+    t0, t1 = D.T0, D.T0 + 100_000
+    t = t0 + d["alpha_num"] * 10_000
+
+    def descs(k):
+        out = []
+        for o in d["objs"]:
+            p = [o["p0"][i] + k * o["dp"][i] for i in range(3)]
+            yaw = math.atan2(math.sin(o["yaw0"] + k * o["dyaw"]), math.cos(o["yaw0"] + k * o["dyaw"]))
+            out.append({"p": p, "yaw": yaw, "size": o["size"], "label": "car", "score": 1.0, "uuid": o["uuid"], "vel": [0.0, 0.0, 0.0]})
+        return out
+
+    f0 = D.frame_gt(descs(0), d["frame"], d["ego0"], t0, "0")
+    f1 = D.frame_gt(descs(1), d["frame"], d["ego1"], t1, "1")
+    # use the source objects first, as an evaluation of frame 0 / frame 1 would
+    with ctx.under_test("first use of the source objects"):
+        for f in (f0, f1):
+            for o in f.objects:
+                o.get_footprint()
+                o.get_corners()
+                o.get_heading_bev(f.transforms)
+                o.get_distance_bev(f.transforms)
+                DynamicObjectWithPerceptionResult(o, o, transforms=f.transforms)
+    out = None
+    with ctx.under_test("get_interpolated_now_frame"):
+        out = get_interpolated_now_frame([f0, f1], t, 200_000)
+    if out is None or out is f0 or out is f1:
+        ctx.violate("derived:not-interpolated", f"query strictly between two frames within tolerance returned {out!r}")
+        return
+    ctx.mark_nontrivial(any(abs(o["dyaw"]) > 0 or max(abs(c) for c in o["dp"]) > 0.1 for o in d["objs"]))
+    tr = out.transforms
+    for o in out.objects:
+        fresh = None
+        with ctx.under_test("build a fresh object at the interpolated pose"):
+            fid = o.frame_id if isinstance(o.frame_id, FrameID) else FrameID.from_value(str(o.frame_id))
+            fresh = DynamicObject(
+                unix_time=o.unix_time,
+                frame_id=fid,
+                position=tuple(float(c) for c in o.state.position),
+                orientation=o.state.orientation,
+                shape=Shape(ShapeType.BOUNDING_BOX, tuple(o.state.size)),
+                velocity=o.state.velocity,
+                semantic_score=o.semantic_score,
+                semantic_label=o.semantic_label,
+                uuid=o.uuid,
+            )
+        if fresh is None:
+            continue
+        with ctx.under_test("accessors of an interpolated object"):
+            a = [tuple(c[:2]) for c in list(o.get_footprint().exterior.coords)[:4]]
+            b = [tuple(c[:2]) for c in list(fresh.get_footprint().exterior.coords)[:4]]
+            ok = all(math.dist(x, y) <= 1e-9 * (1 + abs(y[0]) + abs(y[1])) for x, y in zip(a, b))
+            ctx.require(ok, "derived:footprint", lambda: f"interpolated object {o.uuid}: footprint {a} but an object at its pose {tuple(o.state.position)} has {b}")
+            ca, cb = o.get_corners(), fresh.get_corners()
+            ctx.require(abs(ca - cb).max() <= 1e-9 * (1 + abs(cb).max()), "derived:corners", lambda: f"interpolated object {o.uuid}: corners differ from a fresh object's by {abs(ca - cb).max()}")
+            ha, hb = o.get_heading_bev(tr), fresh.get_heading_bev(tr)
+            ctx.require(abs(math.remainder(ha - hb, 2 * math.pi)) <= 1e-9, "derived:heading", lambda: f"interpolated object {o.uuid}: heading {ha} vs fresh {hb}")
+            da, db = o.get_distance_bev(tr), fresh.get_distance_bev(tr)
+            ctx.require(abs(da - db) <= 1e-9 * (1 + db), "derived:distance", lambda: f"interpolated object {o.uuid}: distance {da} vs fresh {db}")
+            ra = DynamicObjectWithPerceptionResult(fresh, o, transforms=tr)
+            rb = DynamicObjectWithPerceptionResult(fresh, fresh, transforms=tr)
+            for nm in ("center_distance", "plane_distance", "iou_2d", "iou_3d"):
+                va, vb = getattr(ra, nm).value, getattr(rb, nm).value
+                ctx.require(abs(va - vb) <= 1e-7, f"derived:score:{nm}", lambda: f"perfect estimate of interpolated object {o.uuid}: {nm} {va}, against a fresh object at the same pose {vb}")
